@@ -175,7 +175,7 @@ def run_value_gen(chk, cases, workers=16):
         json.dump({"cases": cases}, f)
     try:
         r = tlc.run(GEN, tlc.make_cfg(invariants=["Laws", "Emit"]), env={"CONV_INPUT": path}, workers=workers,
-                    coverage=True, timeout=6000)
+                    coverage=False, timeout=6000)
     finally:
         os.remove(path)
     chk.add_tlc(r, vacuity_actions=("Pick",))
